@@ -81,7 +81,7 @@ def m_voxel_sizes(interp, affine):
         c.assume(v * v == affine.elem(0, k) * affine.elem(0, k) + affine.elem(1, k) * affine.elem(1, k) + affine.elem(2, k) * affine.elem(2, k))
         out.append(v)
     c.ghost["voxel_sizes"] = out
-    return out
+    return array_from_list(out, np.float64)          # nibabel returns an ndarray (not a list)
 
 
 @model(_nib.orientations.aff2axcodes)
